@@ -99,7 +99,10 @@ static void c01(Sink &sink, const Args &a, long c)
     // planners that only build forward motions get the direction-dependent spaces in 4 of 10 worlds; the others never
     static const int KINDS_DIR[] = {K_DUBINS, K_R2, K_RS, K_SE2, K_DUBINS, K_R3, K_CMP, K_DUBINS, K_SE3, K_R6};
     static const int KINDS_SYM[] = {K_R2, K_SE2, K_R3, K_CMP, K_SE3, K_R2, K_SE2, K_R6, K_CMP, K_R3};
-    int kind = supports(pi, K_DUBINS) ? KINDS_DIR[widx % 10] : KINDS_SYM[widx % 10];
+    // ... and the rewiring (optimizing) ones among them in 7 of 10: direction mix-ups between the motion that is validated and
+    // the motion that is inserted only show there, and only now and then
+    static const int KINDS_DIROPT[] = {K_DUBINS, K_DUBINS, K_RS, K_DUBINS, K_R2, K_DUBINS, K_SE2, K_DUBINS, K_RS, K_R3};
+    int kind = supports(pi, K_DUBINS) ? (pi.optimizing ? KINDS_DIROPT[widx % 10] : KINDS_DIR[widx % 10]) : KINDS_SYM[widx % 10];
     if (a.get("kind") != "") kind = atoi(a.get("kind").c_str());
     bool hostile = (widx % 3) == 2;
     if (!supports(pi, kind))
